@@ -49,6 +49,10 @@ RULE = (
     "(f) the *_seq_to_batch functions also with inputs that require grad / are non-contiguous offset views, inputs "
     "compared with their values afterwards, the previous call's result re-read after the next call; loaders and "
     "window loaders constructed and iterated under torch.set_default_dtype(float64). "
+    "(g) LISTING ORDER (environment answer): every corpus of 2-3 utterances and one of 5, 40 batching configurations and "
+    "a slice of the collation flags, loaded with os.listdir / os.scandir answering in each of five non-sorted orders "
+    "(with the sorted one: every permutation of a <= 3-entry directory): all clauses as before and the same batches as "
+    "under the stock listing. "
     "Distinct by construction within a pass (a configuration met by two passes is run with different "
     "histories); non-trivial = at least 2 utterances/indices."
 )
